@@ -74,6 +74,10 @@ CLAIMED = {
          'Integers, hexBinary, base64Binary: for all inputs of the model; recognizers for decimal / boolean / double / float are executable specifications compared by correspondence. PARTIAL: lexical spaces of date/time, duration, QName, URI and string-derived types are not modelled (agreement of the cast paths only); canonical form of doubles is a known finding (format only); CPython int()/float()/codecs are externals. Seven defects were fixed in /repo.',
          'Trusted: Coq kernel; Gen/C10Tables.v T-data; harness whitespace collapse; stdlib Decimal* lemmas (no axioms).',
          'DESIGN.md §6 C10'),
+ 'C17': ('Coq proof that an RFC 8259 JSON codec over code points (serializer + fuelled recursive-descent parser with escapes, surrogate pairs, general numbers) round-trips every JSON value: parse (print v) = Some v; this codec is the independent JSON parser / serializer of the correspondence with fn:serialize, fn:parse-json, json-to-xml / xml-to-json; parse-xml(serialize(node)) by canonical XML and fn:deep-equal on generated trees',
+         'The round-trip theorem is about the codec written for this check (all values, all nesting depths, all scalar-value strings, all m*10^e numbers). The implementation side delegates to CPython json and is compared on generated values (strings over quotes, backslash, control, astral and boundary code points; integers to 10^20; doubles needing 17 digits): PARTIAL - observed, not proved. XML serialization is observed only. Seven defects were fixed in /repo.',
+         'Trusted: Coq kernel; harness conversion between Python / XDM / Coq values; CPython json and xml.etree (canonicalize). No axioms.',
+         'DESIGN.md §6 C17'),
 }
 
 NOT_YET = {}
